@@ -25,8 +25,16 @@ LATIN = ['a', 'Z', ' ', 'é', 'ß', '\xff', '\x00', '\x80']
 ENCS = ['utf8', 'utf-16', 'utf-32', 'latin-1']
 
 
-def enc_real(enc, items):
-    r = drive_plain([rs.data.encode(enc)], items)
+TWIN_TEXT = {'latin-1': ['\xe9\xff', 'twin', '\x80']}
+
+
+def twin_text(enc):
+    return TWIN_TEXT.get(enc, ['é€', '😀 twin', '你'])
+
+
+def enc_real(enc, items, twin=None):
+    r = (drive_plain([rs.data.encode(enc)], items, twin=twin_text(enc), twin_mode=twin) if twin
+         else drive_plain([rs.data.encode(enc)], items))
     out = [bytes(x) for s in r['steps'] for x in s] + [bytes(x) for x in r['fin']]
     return out, r['end']
 
@@ -55,6 +63,13 @@ def cases(tier, rng):
         n_ = len(b''.join(enc_real(enc, items)[0]))
         for prior in range(0, n_ + 1):
             yield {'kind': 'resub', 'enc': enc, 'items': items, 'prior': prior, 'cuts': [n_ // 2]}
+    for enc in ENCS:
+        alpha = LATIN if enc == 'latin-1' else ALPHA
+        items = ['a' + alpha[4] + alpha[-1], alpha[8 % len(alpha)], alpha[6 % len(alpha)]]
+        n_ = len(b''.join(enc_real(enc, items)[0]))
+        for mode in ('before', 'mid'):
+            for c in range(1, min(n_, 8)):
+                yield {'enc': enc, 'items': items, 'cuts': [c, min(n_, c + 2)], 'twin': mode}
     n = {'quick': 500, 'thorough': 15000, 'search': 600}[tier]
     for _ in range(n):
         enc = rng.choice(ENCS)
@@ -62,6 +77,8 @@ def cases(tier, rng):
         items = [''.join(rng.choice(alpha) for _ in range(rng.choice([0, 0, 1, 2, 5, 30]))) for _ in range(rng.choice([0, 1, 2, 3, 6]))]
         data = b''.join(enc_real(enc, items)[0])
         cuts = sorted(rng.randrange(0, len(data) + 1) for _ in range(rng.choice([0, 1, 2, 3, 6, 12])))
+        if rng.random() < 0.15:
+            yield {'enc': enc, 'items': items, 'cuts': cuts, 'twin': rng.choice(['before', 'mid'])}
         yield {'enc': enc, 'items': items, 'cuts': cuts}
 
 
@@ -133,10 +150,15 @@ def real(case):
         return _jsonfile_real(case)
     if case.get('kind') == 'resub':
         return _resub_real(case)
-    encd, end1 = enc_real(case['enc'], case['items'])
+    encd, end1 = enc_real(case['enc'], case['items'], twin=case.get('twin'))
     data = b''.join(encd)
     chunks = cut(data, case['cuts'])
-    r = drive_plain([rs.data.decode(case['enc'])], chunks)
+    if case.get('twin'):
+        # the same decode operator object applied to a second source that is live at the same time, its bytes cut one by one
+        tdata = b''.join(enc_real(case['enc'], twin_text(case['enc']))[0])
+        r = drive_plain([rs.data.decode(case['enc'])], chunks, twin=[tdata[i:i + 1] for i in range(len(tdata))], twin_mode=case['twin'])
+    else:
+        r = drive_plain([rs.data.decode(case['enc'])], chunks)
     return {'encoded': [list(b) for b in encd], 'enc_end': end1,
             'decoded': [x for s in r['steps'] for x in s] + list(r['fin']), 'end': r['end'],
             'n_out': [len(s) for s in r['steps']] + [len(r['fin'])]}
